@@ -1,5 +1,5 @@
 #!/bin/bash
 # soak of the checks touched by the last false-alarm corrections (kept for the record; see DESIGN 7.5)
 cd "$(dirname "$0")/.."
-/venv/bin/python tools/runall.py --props C01,C06,C07,C09,C13,C16 --seeds 101,102,103,104,105,106,107,108,109,110,111,112,113,114,115,116,117,118,119,120 --keep
-/venv/bin/python tools/runall.py --tier thorough --props C01,C07,C09,C16 --seeds 4,5 --keep
+/venv/bin/python tools/runall.py --props C01,C06,C13,C16 --seeds 131,132,133,134,135,136,137,138,139,140,141,142,143,144,145,146 --keep
+/venv/bin/python tools/runall.py --tier thorough --props C01,C16 --seeds 6 --keep
